@@ -68,12 +68,26 @@ type scenario struct {
 	NotFound bool `json:"loader_reports_not_found"` // the load ends with "not found" instead of a value
 	Prelude  int  `json:"prelude,omitempty"`          // history before the scenario: 1/2 = a BulkGet whose loader volunteered that many unrequested keys, 3 = a failed load
 	Expire   bool `json:"written_entry_expires,omitempty"` // expiry configured; the clock passes the written entry's deadline before the loader returns
+	Fail     bool `json:"loader_fails,omitempty"`          // the load ends with an error: nothing of it may reach the written entry (value, refresh time)
+}
+
+// c09Refresh makes every entry stale after 1 ns; a reload failure would postpone the next reload by an hour.
+type c09Refresh struct{}
+
+func (c09Refresh) RefreshAfterCreate(otter.Entry[int, int]) time.Duration      { return time.Nanosecond }
+func (c09Refresh) RefreshAfterUpdate(otter.Entry[int, int], int) time.Duration { return time.Nanosecond }
+func (c09Refresh) RefreshAfterReload(otter.Entry[int, int], int) time.Duration { return time.Nanosecond }
+func (c09Refresh) RefreshAfterReloadFailure(otter.Entry[int, int], error) time.Duration {
+	return time.Hour
 }
 
 func (s scenario) String() string {
 	out := ""
 	if s.NotFound {
 		out = ", loader reports not-found"
+	}
+	if s.Fail {
+		out = ", loader fails"
 	}
 	if s.Prelude != 0 {
 		out += fmt.Sprintf(", prelude %d", s.Prelude)
@@ -108,6 +122,9 @@ func runScenario(s scenario) (out scenOut) {
 	o := &otter.Options[int, int]{
 		RefreshCalculator: otter.RefreshWriting[int, int](time.Nanosecond),
 		Logger:            &otter.NoopLogger{},
+	}
+	if s.Fail {
+		o.RefreshCalculator = c09Refresh{}
 	}
 	if s.Exec == 0 {
 		o.Executor = func(fn func()) { fn() }
@@ -173,6 +190,9 @@ func runScenario(s scenario) (out scenOut) {
 		if s.NotFound {
 			return 0, otter.ErrNotFound
 		}
+		if s.Fail {
+			return 0, errLoaderFailed
+		}
 		return vL, nil
 	}
 	ld := scenLoader{fn: loadFn}
@@ -217,7 +237,13 @@ func runScenario(s scenario) (out scenOut) {
 	// the explicit write, called strictly after the loader entry; whether it took effect is read
 	// from what the call itself reported (a conditional write may find the loaded value installed)
 	var inserted atomic.Bool
+	var refAfterWrite atomic.Int64 // refresh time of the written entry, read right after the write returned
 	write := func() {
+		defer func() {
+			if e, ok := c.GetEntryQuietly(k); s.Fail && ok && e.Value == vS {
+				refAfterWrite.Store(e.RefreshableAtNano)
+			}
+		}()
 		switch s.Write {
 		case wkSet:
 			c.Set(k, vS)
@@ -308,6 +334,11 @@ func runScenario(s scenario) (out scenOut) {
 			out.violation = fmt.Sprintf("the waiting Get did not receive the not-found result: got (%d,%v)", gotV, gotErr)
 			return
 		}
+	} else if s.Fail {
+		if (s.Load == lkGetMiss || s.Load == lkGetExpired) && !errors.Is(gotErr, errLoaderFailed) {
+			out.violation = fmt.Sprintf("the waiting Get did not receive the loader's error: got (%d,%v)", gotV, gotErr)
+			return
+		}
 	} else if (s.Load == lkGetMiss || s.Load == lkGetExpired) && (gotErr != nil || gotV != vL) {
 		out.violation = fmt.Sprintf("the waiting Get did not receive the loaded value: got (%d,%v)", gotV, gotErr)
 		return
@@ -322,6 +353,11 @@ func runScenario(s scenario) (out scenOut) {
 	}
 	if s.Expire {
 		return // the written entry has expired by now: all that matters is that the load did not come back
+	}
+	if ref := refAfterWrite.Load(); s.Fail && s.Pos != posRacing && ref != 0 && ok && e.Value == vS && e.RefreshableAtNano != ref {
+		out.violation = fmt.Sprintf("the load that was in flight when the key was written (%s) failed afterwards, and the refresh time of the written entry moved from %d to %d: the failure of a superseded load was applied (RefreshAfterReloadFailure) to an entry it was not reloading",
+			writeKindNames[s.Write], ref, e.RefreshableAtNano)
+		return
 	}
 	if wantPresent && (!ok || e.Value != wantV) {
 		out.violation = fmt.Sprintf("after %s the key should hold %d but holds (%d, present=%v)", writeKindNames[s.Write], wantV, e.Value, ok)
@@ -634,12 +670,12 @@ func RunC09(col *core.Collector, tier, variant string, seed uint64, shard, nshar
 		for l := 0; l < numLoadKinds; l++ {
 			for w := 0; w < numWriteKinds; w++ {
 				for p := 0; p < numPos; p++ {
-					for ex := 0; ex < 4; ex++ {
+					for ex := 0; ex < 6; ex++ {
 						idx++
 						if idx%nshards != shard {
 							continue
 						}
-						s := scenario{Load: l, Write: w, Pos: p, Exec: ex % 2, Rep: rep, NotFound: ex >= 2, Prelude: rep % 4, Expire: (rep/4)%2 == 1 && p != posRacing}
+						s := scenario{Load: l, Write: w, Pos: p, Exec: ex % 2, Rep: rep, NotFound: ex/2 == 1, Fail: ex/2 == 2, Prelude: rep % 4, Expire: (rep/4)%2 == 1 && p != posRacing}
 						out := runScenario(s)
 						col.Eval(1)
 						progress.Add(1)
